@@ -9,4 +9,5 @@ var v5Families = map[string]func(*engine, int, []byte) error{
 	"enc":     (*engine).checkEncLine,
 	"cli":     (*engine).checkCliLine,
 	"history": (*engine).checkHistoryLine,
+	"goenc":   (*engine).checkGoEncLine,
 }
